@@ -151,6 +151,31 @@ Theorem C13_heap_refines_pure : forall h ca_id arg R T,
     end.
 Proof. exact reversible_heap_refines_pure. Qed.
 
+(* f_R is the textbook table: on binary cells elem_cell R [l; c; r] is bit (4l + 2c + r) of the rule
+   number (ties the spec to Wolfram's numbering directly, not only through the model's bits_to_int) *)
+Theorem C13_elem_cell_closed_form : forall R l c r,
+  (l = 0 \/ l = 1)%Z -> (c = 0 \/ c = 1)%Z -> (r = 0 \/ r = 1)%Z ->
+  elem_cell R [l; c; r] = b2z (N.testbit R (Z.to_N (4 * l + 2 * c + r))).
+Proof. exact elem_cell_closed_form. Qed.
+
+(* The rule object's own state: evolve T1 steps, then evolve the RESULT (a new array, allocated
+   behind the rule's private vector) T2 more steps with the SAME rule object.  The two calls are one
+   run of T1 + T2 - 1 steps, and after each call the object's vector holds the row before the last
+   one (s_{T1-2}, then s_{T1+T2-3}); the caller's heap h is a prefix of both final heaps. *)
+Theorem C13_reversible_continues : forall h ca_id arg R T1 T2,
+  let prev := h_row h (arg_ref arg) in
+  let ca := h_get h ca_id in
+  let init := last ca [] in
+  let o := snd (mk_reversible h arg R) in
+  let out1 := ca ++ map (so_row R prev init) (seq 1 (T1 - 1)) in
+  let h2 := h ++ [[so_before R prev init (T1 - 1)]] in
+  (R < 256)%N -> 1 <= length init -> length prev = length init -> 1 <= T1 -> 1 <= T2 ->
+  evolve_heap (fst (mk_reversible h arg R)) ca_id T1 o 1 = Ok (h2, out1) /\
+  evolve_heap (h2 ++ [out1]) (length h2) T2 o 1 =
+    Ok (h ++ [[so_before R prev init (T1 + T2 - 2)]] ++ [out1],
+        ca ++ map (so_row R prev init) (seq 1 (T1 + T2 - 2))).
+Proof. exact reversible_continues. Qed.
+
 (* ------------------------------------------------------------------ non-vacuity *)
 Local Open Scope Z_scope.
 (* the input of the finding fixed by commit bfa38cd (known_findings.json) *)
@@ -201,6 +226,20 @@ Proof.
   vm_compute. reflexivity.
 Qed.
 
+(* rule 30 = 0b00011110: neighbourhood 1,0,0 is bit 4; continuing 4 + 3 steps with one object = 6 steps *)
+Example C13_nonvacuous_closed_form_and_continue :
+  elem_cell 30 [1; 0; 0] = 1 /\ elem_cell 30 [1; 1; 0] = 0 /\
+  let h := [[[0; 1; 0; 0; 1]]] in
+  let mk := mk_reversible h (ArgView 0 0) 90 in
+  exists h2 out1 h4,
+    evolve_heap (fst mk) 0 4 (snd mk) 1 = Ok (h2, out1) /\
+    evolve_heap (h2 ++ [out1]) (length h2) 3 (snd mk) 1 = Ok (h4, snd (match run_reversible h 0 (ArgView 0 0) 90 6 1 with Ok r => r | Raise _ => ([], []) end)) /\
+    nth 3 out1 [] <> nth 0 out1 [].
+Proof.
+  split; [reflexivity|]. split; [reflexivity|]. cbv zeta. eexists. eexists. eexists.
+  split; [vm_compute; reflexivity|]. split; [vm_compute; reflexivity|]. vm_compute. intros E; discriminate E.
+Qed.
+
 Print Assumptions C13_reversible_second_order.
 Print Assumptions C13_second_order_cellwise.
 Print Assumptions C13_states_stay_binary.
@@ -212,5 +251,7 @@ Print Assumptions C13_reversible_frame.
 Print Assumptions C13_reversible_aliasing_refuted.
 Print Assumptions C13_aliasing_mutates_list.
 Print Assumptions C13_heap_refines_pure.
-From CPL Require Import gen.GenFuns GenProps.GenFunsEquivC13 GenProps.C13Src. (* source tie: gen/GenFuns.v is regenerated from ca_functions.py on every run *)
+Print Assumptions C13_elem_cell_closed_form.
+Print Assumptions C13_reversible_continues.
+From CPL Require Import gen.GenFuns_C13 GenProps.GenFunsEquivC13 GenProps.C13Src. (* source tie: gen/GenFuns_C13.v is regenerated from ca_functions.py on every run *)
 Theorem C13_source_tie : (forall (o : rev_obj) (h : heap) (n : list Z) (c t : nat), reversible_call o (h, None) n c t = match src_reversible_call (heap_read o) (heap_write o) (rule_no o) h n c with Ok (h', v) => ((h', None), v) | Raise e => ((h, Some e), 0%Z) end) /\ (forall (R : N) (prev n : list Z) (c t : nat), reversible_rule1 R prev n c t = match src_reversible_call (@nth_error Z) (fun s k v => set_nth k v s) R prev n c with Ok (prev', v) => (prev', v) | Raise _ => (prev, 0%Z) end). Proof. exact C13_source_translation_agrees. Qed. Print Assumptions C13_source_tie.
